@@ -1045,7 +1045,11 @@ func prewriteMutation(db *leveldb.DB, batch *leveldb.Batch,
 			// The minCommitTS has been pushed forward.
 			minCommitTS = dec.lock.minCommitTS
 		}
-		_, err = checkConflictValue(iter, mutation, startTS, startTS, false, assertionLevel, false, false)
+		// The key is protected by the transaction's own pessimistic lock, which was
+		// acquired with a conflict check at its for-update ts: like TiKV, do not
+		// re-check for write conflicts against the (older) start ts. Passing the
+		// largest ts as for-update ts keeps the rollback and assertion checks only.
+		_, err = checkConflictValue(iter, mutation, math.MaxUint64, startTS, false, assertionLevel, false, false)
 		if err != nil {
 			return err
 		}
